@@ -1,2 +1,707 @@
-def class_tables(rep, only_rules=None):
-    pass
+"""Rules over complete emitted modules (see modroute.py): calling-convention conformance,
+context wiring, free-name closure, ignore distribution, error functions, class tables."""
+import ast
+import builtins
+
+from .common import AnalysisError, Finding
+from . import load
+from . import modroute
+from . import metaeval as M
+from . import paths as P
+
+_cache = {}
+
+
+def impl(name):
+    return f'_try_{name}'
+
+
+# --------------------------------------------------------------------------- route grammars
+def route_grammars(R):
+    """-> list of (label, body-builder, kwargs for emit).  Builders are called once per
+    emission (generate_source_code mutates the expression objects)."""
+    G = []
+
+    def plain():
+        return [R.Rule('start', R.Right(R.Str('a'), R.Ref('X'))),
+                R.Rule('X', R.Regex('b+')),
+                R.Rule('Y', R.Choice(R.Ref('X'), R.Str('c')))]
+    G.append(('plain', plain, {}))
+
+    def ignore_named():
+        return plain() + [R.Rule('Space', R.Regex(r'\s+'), ignored=True)]
+    G.append(('ignore-named', ignore_named, {}))
+
+    def ignore_anon():
+        return plain() + [R.Rule(None, R.Regex(r'\s+'), ignored=True)]
+    G.append(('ignore-anon', ignore_anon, {}))
+
+    def ignore_two_first():
+        return [R.Rule(None, R.Regex(r'#[^\n]*'), ignored=True),
+                R.Rule('Space', R.Seq(R.Str('{-'), R.Regex('[A-Z]+'), R.Str('-}')), ignored=True)] + plain()
+    G.append(('ignore-two-first', ignore_two_first, {}))
+
+    def class_start():
+        return [R.Class('Start', [R.Rule('a', R.Str('x')), R.Rule('b', R.Ref('X'))]),
+                R.Rule('X', R.Regex('b+')),
+                R.Rule('Space', R.Regex(r'\s+'), ignored=True)]
+    G.append(('class-start-ignore', class_start, {}))
+
+    def classes():
+        req = R.Rule(None, R.Where(R.Py('None'), R.Py('lambda _: f != g')), omitted=True)
+        return [R.Rule('start', R.Ref('K')),
+                R.Class('K', [R.Rule('f', R.Ref('X')),
+                              R.Rule('g', R.Str('q'), omitted=True),
+                              R.Rule(None, R.Str('z'), omitted=True),
+                              req,
+                              R.Rule('h', R.Call(R.Ref('P'), [R.Py('2')]))]),
+                R.Class('P', [R.Rule('v', R.List(R.Ref('X'), min_len='n', max_len='n'))], params=['n']),
+                R.Class('E', []),
+                R.Rule('X', R.Regex('b+'))]
+    G.append(('classes', classes, {}))
+
+    def templates():
+        T = lambda *args: R.Call(R.Ref('T'), list(args))
+        return [R.Rule('start', R.Ref('U')),
+                R.Rule('T', R.Right(R.Ref('p'), R.Str('!')), params=['p']),
+                R.Rule('U', T(R.Str('a'))),
+                R.Rule('V', T(R.Ref('X'))),
+                R.Rule('W', T(R.Ref('q')), params=['q']),
+                R.Rule('Z', T(R.Seq(R.Str('a'), R.Ref('X')))),
+                R.Rule('A1', T(R.Seq(R.Ref('r'), R.Str('x'))), params=['r']),
+                R.Rule('B2', T(R.Seq(R.Ref('r'), R.Ref('s'))), params=['r', 's']),
+                R.Rule('C3', T(R.Seq(R.Ref('r'), R.Ref('s'), R.Ref('t'))), params=['r', 's', 't']),
+                R.Rule('KWC', T(R.Kw('p', R.Str('k')))),
+                R.Rule('KWR', T(R.Kw('p', R.Ref('X')))),
+                R.Rule('PYC', T(R.Py('1 + 1'))),
+                R.Rule('BYT', T(R.Byte(0x41))),
+                R.Rule('NEST', T(T(R.Str('n')))),
+                R.Rule('X', R.Regex('b+'))]
+    G.append(('templates', templates, {}))
+
+    def templates_ignore():
+        return templates() + [R.Rule('Space', R.Regex(r'\s+'), ignored=True)]
+    G.append(('templates-ignore', templates_ignore, {}))
+
+    def shadow():
+        return [R.Rule('start', R.Call(R.Ref('Listing'), [R.Ref('Number')])),
+                R.Rule('Item', R.Regex('[a-z]+')),
+                R.Rule('Number', R.Regex('[0-9]+')),
+                R.Rule('Listing', R.Right(R.Str('['), R.Ref('Item')), params=['Item']),
+                R.Rule('L2', R.Let('Item', R.Str('a'), R.Right(R.Str('='), R.Ref('Item')))),
+                R.Class('CP', [R.Rule('v', R.Ref('Number'))], params=['Number'])]
+    G.append(('shadow', shadow, {}))
+
+    def let():
+        return [R.Rule('start', R.Let('x', R.Ref('X'), R.Call(R.Ref('T'), [R.Ref('x')]))),
+                R.Rule('T', R.Right(R.Ref('p'), R.Str('!')), params=['p']),
+                R.Rule('X', R.Regex('b+'))]
+    G.append(('let', let, {}))
+    return G
+
+
+def sub_routes(R):
+    """-> list of (label, parent body nodes (parser stub nodes), parent expression builder,
+    child builder, parent name)"""
+    N = modroute.node
+
+    def parent_nodes(anon_ignore):
+        nodes = [N('RuleDef', is_override=False, is_ignored=False, name='start', params=None, expr=None),
+                 N('RuleDef', is_override=False, is_ignored=False, name='X', params=None, expr=None),
+                 N('RuleDef', is_override=False, is_ignored=False, name='Y', params=None, expr=None),
+                 N('ClassDef', name='K', params=None, members=[])]
+        if anon_ignore:
+            nodes.append(N('IgnoreStmt', expr=None))
+        else:
+            nodes.append(N('RuleDef', is_override=False, is_ignored=True, name='Space', params=None, expr=None))
+        return nodes
+
+    def parent_exprs(anon_ignore):
+        def build():
+            return [R.Rule('start', R.Right(R.Str('a'), R.Ref('X'))),
+                    R.Rule('X', R.Regex('b+')),
+                    R.Rule('Y', R.Choice(R.Ref('X'), R.Str('c'))),
+                    R.Class('K', [R.Rule('f', R.Ref('X'))]),
+                    R.Rule(None if anon_ignore else 'Space', R.Regex(r'\s+'), ignored=True)]
+        return build
+
+    def child():
+        return [R.Rule('X', R.Choice(R.Super('X'), R.Str('z'))),
+                R.Rule('N', R.Seq(R.Ref('X'), R.Ref('Y'), R.Ref('K')))]
+
+    def child_ignore():
+        return child() + [R.Rule('Comment', R.Regex('#.*'), ignored=True)]
+    out = []
+    for anon in (False, True):
+        tag = 'anon' if anon else 'named'
+        out.append((f'sub-{tag}-ignore', parent_nodes(anon), parent_exprs(anon), child))
+        out.append((f'sub-{tag}-ignore+own', parent_nodes(anon), parent_exprs(anon), child_ignore))
+    return out
+
+
+def emitted_modules():
+    """-> (R, list of Emitted or (label, MetaRaise))"""
+    if 'mods' in _cache:
+        return _cache['mods']
+    R = modroute.Routes()
+    out = []
+    for label, build, kw in route_grammars(R):
+        for name in (None, 'gmod'):
+            e = R.emit(f'{label}[ctx={int(name is not None)}]', build(), name=name)
+            out.append(e if isinstance(e, modroute.Emitted) else (f'{label}[ctx={int(name is not None)}]', e))
+    for label, pnodes, pbuild, cbuild in sub_routes(R):
+        pe = R.emit(f'{label}:parent', pbuild(), name='pmod')
+        ce = R.emit(f'{label}:child', cbuild(), name='cmod', extends=R.parent('pmod', pnodes))
+        for e, l in ((pe, f'{label}:parent'), (ce, f'{label}:child')):
+            out.append(e if isinstance(e, modroute.Emitted) else (l, e))
+        if isinstance(ce, modroute.Emitted) and isinstance(pe, modroute.Emitted):
+            ce.parent = pe
+        # three-level chain
+        ge = R.emit(f'{label}:grandchild', [R.Rule('N2', R.Choice(R.Super('N'), R.Super('X')))], name='gcmod',
+                    extends=R.parent('cmod', [modroute.node('RuleDef', is_override=False, is_ignored=False,
+                                                            name='X', params=None, expr=None),
+                                              modroute.node('RuleDef', is_override=False, is_ignored=False,
+                                                            name='N', params=None, expr=None)],
+                                     extends=R.parent('pmod', pnodes)))
+        if isinstance(ge, modroute.Emitted):
+            ge.parent = ce if isinstance(ce, modroute.Emitted) else None
+            out.append(ge)
+        else:
+            out.append((f'{label}:grandchild', ge))
+    _cache['mods'] = (R, out)
+    return _cache['mods']
+
+
+RUNTIME_NAMES = None
+
+
+def runtime_subjects():
+    """The runtime as it is actually emitted: for every route module the part that comes from
+    the templates (functions/classes whose names the templates define), de-duplicated by text;
+    plus the copy embedded in the shipped parser.  -> list of (what, tree, rel)"""
+    if 'rt_subjects' in _cache:
+        return _cache['rt_subjects']
+    names = set()
+    for ctx in (False, True):
+        try:
+            tree, _ = load.runtime_ast(ctx)
+            names |= {n.name for n in tree.body if isinstance(n, (ast.FunctionDef, ast.ClassDef))}
+        except AnalysisError:
+            pass
+    R, mods = emitted_modules()
+    out, seen = [], set()
+    for m in mods:
+        if not isinstance(m, modroute.Emitted) or m.sub:
+            continue
+        if not names:
+            names = {n.name for n in m.tree.body if isinstance(n, (ast.FunctionDef, ast.ClassDef))
+                     and not n.name.startswith(('_try_', '_parse_', '_raise_error'))}
+        sig = '\n'.join(ast.unparse(n) for n in m.tree.body
+                        if isinstance(n, (ast.FunctionDef, ast.ClassDef)) and n.name in names)
+        if sig in seen:
+            continue
+        seen.add(sig)
+        out.append((f'runtime emitted for route {m.label}', m.tree, 'sourcer/translator.py'))
+    if not out:
+        for ctx in (False, True):
+            tree, _ = load.runtime_ast(ctx)
+            out.append((f'translator.py:_main_template[ctx={int(ctx)}]', tree, 'sourcer/translator.py'))
+    out.append(('sourcer/parser.py (generated)', load.parse('sourcer/parser.py'), 'sourcer/parser.py'))
+    _cache['rt_subjects'] = out
+    return out
+
+
+# --------------------------------------------------------------------------- helpers
+def runtime_defs(uses_context):
+    """name -> FunctionDef/ClassDef of the runtime template for this convention"""
+    tree, src = load.runtime_ast(uses_context)
+    out = {}
+    for n in tree.body:
+        if isinstance(n, (ast.FunctionDef, ast.ClassDef)):
+            out[n.name] = n
+        elif isinstance(n, ast.Assign):
+            for t in n.targets:
+                if isinstance(t, ast.Name):
+                    out[t.id] = n
+        elif isinstance(n, (ast.Import, ast.ImportFrom)):
+            for a in n.names:
+                out[(a.asname or a.name).split('.')[0]] = n
+    return out
+
+
+def module_level_names(tree):
+    out = {}
+    for n in tree.body:
+        if isinstance(n, (ast.FunctionDef, ast.ClassDef)):
+            out[n.name] = n
+        elif isinstance(n, ast.Assign):
+            for t in n.targets:
+                if isinstance(t, ast.Name):
+                    out[t.id] = n
+        elif isinstance(n, (ast.Import, ast.ImportFrom)):
+            for a in n.names:
+                out[(a.asname or a.name).split('.')[0]] = n
+    return out
+
+
+def prefix_params(uses_context):
+    return (['_ctx'] if uses_context else []) + ['_text', '_pos']
+
+
+def positional_params(fn):
+    a = fn.args
+    return [x.arg for x in a.posonlyargs + a.args]
+
+
+def required_count(fn):
+    return len(positional_params(fn)) - len(fn.args.defaults)
+
+
+def functions_top(tree):
+    return {n.name: n for n in tree.body if isinstance(n, ast.FunctionDef)}
+
+
+def is_generator(fn):
+    for n in ast.walk(fn):
+        if isinstance(n, (ast.Yield, ast.YieldFrom)):
+            # not inside a nested def
+            return True
+    return False
+
+
+def requests_in(fn):
+    """yield (TAG, callee, pos) requests in a function -> list of (callee node, pos node, yield node)"""
+    out = []
+    for n in ast.walk(fn):
+        if isinstance(n, ast.Yield) and isinstance(n.value, ast.Tuple) and len(n.value.elts) == 3 \
+                and isinstance(n.value.elts[0], ast.Constant):
+            out.append((n.value.elts[1], n.value.elts[2], n))
+    out.sort(key=lambda t: (t[2].lineno, t[2].col_offset))
+    return out
+
+
+def strip_ctx(node):
+    """_ctx.NAME / NAME -> (NAME, via) ; _super_ctx.NAME -> (NAME, 'super') ; else None"""
+    if isinstance(node, ast.Name):
+        return node.id, 'bare'
+    if isinstance(node, ast.Attribute) and isinstance(node.value, ast.Name):
+        if node.value.id == '_ctx':
+            return node.attr, 'ctx'
+        if node.value.id == '_super_ctx':
+            return node.attr, 'super'
+    if isinstance(node, ast.Attribute) and isinstance(node.value, ast.Attribute) \
+            and isinstance(node.value.value, ast.Name) and node.value.value.id == '_ctx' \
+            and node.value.attr == '_super_ctx':
+        return node.attr, 'ctx.super'
+    return None
+
+
+def local_assignments(fn):
+    """name -> list of value nodes assigned to it inside fn (simple Name targets)"""
+    out = {}
+    for n in ast.walk(fn):
+        if isinstance(n, ast.Assign):
+            for t in n.targets:
+                if isinstance(t, ast.Name):
+                    out.setdefault(t.id, []).append(n.value)
+    return out
+
+
+# --------------------------------------------------------------------------- conformance
+def conformance(mod, bad, stats):
+    """every callee receives exactly the arguments its definition takes, in this convention"""
+    ctx = mod.uses_context
+    pre = prefix_params(ctx)
+    npre = len(pre)
+    funcs = functions_top(mod.tree)
+    rt = runtime_defs(ctx)
+    where = mod.label
+
+    def resolve(node):
+        """callee expression -> FunctionDef in this module (or None if external/unknown)"""
+        s = strip_ctx(node)
+        if s is None:
+            return None, None
+        name, via = s
+        if via in ('super', 'ctx.super'):
+            return None, name
+        return funcs.get(name), name
+
+    def check_callee_takes(fn, name, extra_pos, kw_names, site):
+        params = positional_params(fn)
+        stats['callsites'] += 1
+        if params[:npre] != pre:
+            bad('CONV-prefix', f'{where}: {name} is defined with parameters {params}; under '
+                               f'{"the context" if ctx else "the plain"} convention every parse function '
+                               f'starts with {pre} ({site})')
+            return
+        rest = params[npre:]
+        need = required_count(fn) - npre
+        if fn.args.vararg is None and extra_pos > len(rest):
+            bad('CONV-arity', f'{where}: {name}{tuple(params)} receives {extra_pos} extra positional '
+                              f'argument(s) {site}')
+        elif extra_pos + len([k for k in kw_names if k in rest[extra_pos:]]) < need:
+            bad('CONV-arity', f'{where}: {name}{tuple(params)} is invoked with only {extra_pos} extra positional '
+                              f'and keywords {list(kw_names)} but requires {need} beyond {pre} ({site})')
+        for k in kw_names:
+            if k not in rest and fn.args.kwarg is None:
+                bad('CONV-arity', f'{where}: {name}{tuple(params)} receives unknown keyword {k!r} ({site})')
+            elif k in rest[:extra_pos]:
+                bad('CONV-arity', f'{where}: {name} receives {k!r} both positionally and by keyword ({site})')
+
+    def check_value_as_parser(vnode, fn_env, site, depth=0):
+        """a value that will later be *requested* (so the driver calls it with the prefix only)"""
+        if isinstance(vnode, ast.Name) and vnode.id in ('_result', '_status', '_pos'):
+            return      # a value parsed earlier (let-bound / field): supplied at run time
+        if isinstance(vnode, ast.Name) and vnode.id in fn_env and depth < 4:
+            for v in fn_env[vnode.id]:
+                check_value_as_parser(v, fn_env, site, depth + 1)
+            return
+        if isinstance(vnode, ast.Call) and isinstance(vnode.func, ast.Name):
+            f = vnode.func.id
+            if f == '_ParseFunction':
+                check_parse_function(vnode, fn_env, site)
+                return
+            if f in ('_wrap_string_literal', '_wrap_byte_literal') and len(vnode.args) == 2:
+                check_value_as_parser(vnode.args[1], fn_env, site + f' via {f}', depth + 1)
+                return
+        fn, name = resolve(vnode)
+        if fn is not None:
+            check_callee_takes(fn, name, 0, [], site)
+
+    def check_parse_function(call, fn_env, site):
+        if len(call.args) != 3:
+            bad('CONV-arity', f'{where}: _ParseFunction built with {len(call.args)} fields ({site})')
+            return
+        f, args, kwargs = call.args
+        for fld, label in ((args, 'args'), (kwargs, 'kwargs')):
+            if isinstance(fld, (ast.Dict, ast.List, ast.Set)):
+                bad('CONV-hashable', f'{where}: _ParseFunction.{label} is a {type(fld).__name__.lower()} display '
+                                     f'({ast.unparse(fld)}): the value is part of the memo key and must be '
+                                     f'hashable ({site})')
+        extra = len(args.elts) if isinstance(args, ast.Tuple) else None
+        kws = []
+        if isinstance(kwargs, ast.Tuple):
+            for e in kwargs.elts:
+                if isinstance(e, ast.Tuple) and len(e.elts) == 2 and isinstance(e.elts[0], ast.Constant):
+                    kws.append(e.elts[0].value)
+        fn, name = resolve(f)
+        if fn is not None and extra is not None:
+            check_callee_takes(fn, name, extra, kws, site + ' through _ParseFunction')
+        # parser-valued arguments are themselves requested later with the prefix only
+        if isinstance(args, ast.Tuple):
+            for a in args.elts:
+                if isinstance(a, ast.Name) and (a.id in fn_env or a.id in funcs):
+                    vals = fn_env.get(a.id, [a])
+                    for v in vals:
+                        if isinstance(v, ast.Call) or (isinstance(v, ast.Name) and v.id in funcs):
+                            check_value_as_parser(v, fn_env, site + f' (argument {a.id})')
+        if isinstance(kwargs, ast.Tuple):
+            for e in kwargs.elts:
+                if isinstance(e, ast.Tuple) and len(e.elts) == 2:
+                    a = e.elts[1]
+                    if isinstance(a, ast.Name) and (a.id in fn_env or a.id in funcs):
+                        for v in fn_env.get(a.id, [a]):
+                            check_value_as_parser(v, fn_env, site + f' (keyword argument)')
+
+    for fname, fn in funcs.items():
+        env = local_assignments(fn)
+        params = set(positional_params(fn))
+        for callee, pos, y in requests_in(fn):
+            site = f'request in {fname} (line {y.lineno})'
+            if isinstance(callee, ast.Name) and callee.id in env:
+                for v in env[callee.id]:
+                    check_value_as_parser(v, env, site)
+            elif isinstance(callee, ast.Name) and callee.id in params:
+                stats['callsites'] += 1      # parameter: supplied by a caller, checked at the call site
+            else:
+                fn2, name = resolve(callee)
+                if fn2 is not None:
+                    check_callee_takes(fn2, name, 0, [], site)
+                elif strip_ctx(callee) is None:
+                    raise AnalysisError(f'{where}: request with callee {ast.unparse(callee)} in {fname} '
+                                        f'is of no known form')
+        # direct calls of emitted helper functions (spill path)
+        for n in ast.walk(fn):
+            if isinstance(n, ast.Call) and isinstance(n.func, ast.Name) and n.func.id in funcs \
+                    and n.func.id.startswith('_parse_function_'):
+                h = funcs[n.func.id]
+                stats['callsites'] += 1
+                hp = positional_params(h)
+                if len(n.args) != len(hp) or any(isinstance(a, ast.Name) and a.id != p
+                                                  for a, p in zip(n.args, hp)):
+                    bad('CONV-arity', f'{where}: helper {h.name}{tuple(hp)} is called with '
+                                      f'({", ".join(ast.unparse(a) for a in n.args)}) in {fname}')
+                if is_generator(h):
+                    bad('SPILL-kind', f'{where}: {fname} calls helper {h.name} directly and unpacks its result, '
+                                      f'but the helper body suspends (it contains a request): the call returns '
+                                      f'a generator object')
+    # entry points
+    for fname, fn in funcs.items():
+        if fname.startswith('_parse_') and not fname.startswith('_parse_function_'):
+            check_entry(fn, fname, mod, bad, funcs, stats)
+    for cname, cls in mod.classes.items():
+        for m in cls.body:
+            if isinstance(m, ast.FunctionDef) and m.name == 'parse':
+                check_entry(m, f'{cname}.parse', mod, bad, funcs, stats, cls=cls)
+
+
+ENTRY_PARAMS = ['text', 'pos', 'fullparse']
+
+
+def check_entry(fn, qual, mod, bad, funcs, stats, cls=None):
+    ctx = mod.uses_context
+    where = mod.label
+    stats['entries'] += 1
+    rt = runtime_defs(ctx)
+    run = rt.get('_run')
+    if not isinstance(run, ast.FunctionDef):
+        raise AnalysisError('anchor _run vanished from the runtime template')
+    run_params = positional_params(run)
+
+    def check_sig(args, what):
+        names = [a.arg for a in args.args]
+        defaults = [ast.unparse(d) for d in args.defaults]
+        if names != ENTRY_PARAMS or defaults != ['0', 'True']:
+            bad('ENTRY-signature', f'{where}: {what} has parameters ({ast.unparse(args)}); every public entry '
+                                   f'point takes (text, pos=0, fullparse=True) in both conventions')
+
+    def check_run_call(call, what, impl_ok):
+        if not (isinstance(call, ast.Call) and isinstance(call.func, ast.Name) and call.func.id == '_run'):
+            bad('ENTRY-driver', f'{where}: {what} does not tail-call the driver (_run)')
+            return
+        got = [ast.unparse(a) for a in call.args]
+        want_prefix = (['_ctx'] if ctx else []) + ['text', 'pos']
+        if len(got) != len(run_params) or got[:len(want_prefix)] != want_prefix or got[-1] != 'fullparse':
+            bad('ENTRY-driver', f'{where}: {what} calls _run({", ".join(got)}); the driver is '
+                                f'_run({", ".join(run_params)})')
+            return
+        impl_ok(call.args[len(want_prefix)])
+
+    rets = [n for n in fn.body if isinstance(n, ast.Return)]
+    deco = [ast.unparse(d) for d in fn.decorator_list]
+    if cls is not None and 'staticmethod' not in deco:
+        # emitted as `@staticmethod` line followed by def: outsourcer writes it as a statement
+        pass
+    names = [a.arg for a in fn.args.args]
+    if cls is not None and names and names != ENTRY_PARAMS:
+        # parameterised class: parse(*params) returns the entry closure
+        lam = rets[0].value if rets else None
+        if not isinstance(lam, ast.Lambda):
+            bad('ENTRY-signature', f'{where}: {qual}({", ".join(names)}) does not return an entry closure')
+            return
+        check_sig(lam.args, f'the closure returned by {qual}')
+        env = local_assignments(fn)
+
+        def impl_ok(node):
+            vals = env.get(node.id, []) if isinstance(node, ast.Name) else [node]
+            for v in vals:
+                if isinstance(v, ast.Call) and isinstance(v.func, ast.Name) and v.func.id == '_ParseFunction':
+                    f, args, kwargs = v.args
+                    for fld, label in ((args, 'args'), (kwargs, 'kwargs')):
+                        if isinstance(fld, (ast.Dict, ast.List, ast.Set)):
+                            bad('CONV-hashable', f'{where}: {qual} builds _ParseFunction with {label}='
+                                                 f'{ast.unparse(fld)}: the entry closure is the memo key of the '
+                                                 f'start request and must be hashable')
+                    tgt = strip_ctx(f)
+                    fn2 = funcs.get(tgt[0]) if tgt else None
+                    if fn2 is not None and isinstance(args, ast.Tuple):
+                        need = required_count(fn2) - len(prefix_params(ctx))
+                        if len(args.elts) != need:
+                            bad('CONV-arity', f'{where}: {qual} passes {len(args.elts)} arguments to '
+                                              f'{fn2.name}{tuple(positional_params(fn2))}')
+        check_run_call(lam.body, f'the closure returned by {qual}', impl_ok)
+        return
+    check_sig(fn.args, qual)
+    if len(rets) != 1:
+        bad('ENTRY-driver', f'{where}: {qual} does not consist of one return')
+        return
+
+    def impl_ok(node):
+        tgt = strip_ctx(node)
+        if tgt is None:
+            bad('ENTRY-driver', f'{where}: {qual} starts {ast.unparse(node)}')
+            return
+        name, via = tgt
+        fn2 = funcs.get(name)
+        if fn2 is None:
+            bad('ENTRY-driver', f'{where}: {qual} starts {name}, which this module does not define')
+            return
+        if ctx and via != 'ctx' and cls is not None:
+            pass
+        need = required_count(fn2) - len(prefix_params(ctx))
+        if need > 0:
+            bad('ENTRY-params', f'{where}: {qual} starts {name}{tuple(positional_params(fn2))} without its '
+                                f'{need} parameter(s): the entry point of a parameterised rule cannot work')
+    check_run_call(rets[0].value, qual, impl_ok)
+
+
+# --------------------------------------------------------------------------- wiring / free names
+def context_wiring(mod, bad, stats):
+    if not mod.uses_context:
+        # plain convention: no context object may be mentioned at all
+        for n in ast.walk(mod.tree):
+            if isinstance(n, ast.Name) and n.id in ('_ctx', '_super_ctx'):
+                bad('WIRE-plain', f'{mod.label}: plain-convention module mentions {n.id} (line {n.lineno})')
+                break
+        return
+    assigned = {}
+    for n in mod.tree.body:
+        if isinstance(n, ast.Assign):
+            for t in n.targets:
+                if isinstance(t, ast.Attribute) and isinstance(t.value, ast.Name) and t.value.id == '_ctx':
+                    assigned[t.attr] = n.value
+    reads = {}
+    sreads = {}
+    for fname, fn in load.functions_of(mod.tree).items():
+        for n in ast.walk(fn):
+            if isinstance(n, ast.Attribute) and isinstance(n.ctx, ast.Load) and isinstance(n.value, ast.Name):
+                if n.value.id == '_ctx':
+                    reads.setdefault(n.attr, fname)
+                elif n.value.id == '_super_ctx':
+                    sreads.setdefault(n.attr, fname)
+    # `super.R` is lexical: it must be rooted at the module-global _super_ctx, never at the
+    # dynamic context (which is the most derived grammar's)
+    for fname, fn in load.functions_of(mod.tree).items():
+        for n in ast.walk(fn):
+            if isinstance(n, ast.Attribute) and isinstance(n.value, ast.Attribute) \
+                    and isinstance(n.value.value, ast.Name) and n.value.value.id == '_ctx' \
+                    and n.value.attr == '_super_ctx':
+                bad('SUPER-lexical', f'{mod.label}: {fname} reaches the parent through the dynamic context '
+                                     f'(`{ast.unparse(n)}`): in a chain C extends B extends A, B\'s `super.R` '
+                                     f'then denotes B\'s own definition (unbounded recursion) instead of A\'s')
+                sreads.setdefault(n.attr, fname)
+    # inherited code runs with the most derived context: everything an ancestor's functions read
+    # through _ctx must be assigned on this module's context too
+    anc = getattr(mod, 'parent', None)
+    while anc is not None:
+        for fname, fn in load.functions_of(anc.tree).items():
+            for n in ast.walk(fn):
+                if isinstance(n, ast.Attribute) and isinstance(n.ctx, ast.Load) and isinstance(n.value, ast.Name) \
+                        and n.value.id == '_ctx' and n.attr not in assigned and n.attr != '_super_ctx':
+                    bad('WIRE-inherited', f'{mod.label}: inherited function {fname} of {anc.label} reads '
+                                          f'_ctx.{n.attr}, which this sub-grammar does not put on its context: '
+                                          f'AttributeError when the inherited rule runs through the sub-grammar')
+        anc = getattr(anc, 'parent', None)
+    stats['ctx_reads'] += len(reads) + len(sreads)
+    for a, fname in reads.items():
+        if a not in assigned and a != '_super_ctx':
+            bad('WIRE-ctx', f'{mod.label}: {fname} reads _ctx.{a}, which the module never assigns '
+                            f'(assigned: {sorted(assigned)[:12]})')
+    parent = getattr(mod, 'parent', None)
+    if sreads:
+        if parent is None:
+            if not mod.sub:
+                bad('WIRE-super', f'{mod.label}: reads _super_ctx.* but is not a sub-grammar')
+        else:
+            passigned = set()
+            for n in parent.tree.body:
+                if isinstance(n, ast.Assign):
+                    for t in n.targets:
+                        if isinstance(t, ast.Attribute) and isinstance(t.value, ast.Name) and t.value.id == '_ctx':
+                            passigned.add(t.attr)
+            for a, fname in sreads.items():
+                if a not in passigned:
+                    bad('WIRE-super', f'{mod.label}: {fname} reads _super_ctx.{a}, which the parent module never '
+                                      f'assigns on its context (it assigns {sorted(passigned)})')
+    # wiring statements themselves: the value must exist
+    names = module_level_names(mod.tree)
+    for a, v in assigned.items():
+        if isinstance(v, ast.Name) and v.id not in names and v.id not in runtime_defs(True):
+            bad('WIRE-ctx', f'{mod.label}: `_ctx.{a} = {v.id}` names something the module does not define')
+        if isinstance(v, ast.Attribute) and isinstance(v.value, ast.Name) and v.value.id == '_super_ctx' \
+                and parent is not None:
+            passigned = {t.attr for n in parent.tree.body if isinstance(n, ast.Assign) for t in n.targets
+                         if isinstance(t, ast.Attribute) and isinstance(t.value, ast.Name) and t.value.id == '_ctx'}
+            if v.attr not in passigned:
+                bad('WIRE-super', f'{mod.label}: `_ctx.{a} = _super_ctx.{v.attr}`: the parent context has no '
+                                  f'{v.attr} (it has {sorted(passigned)})')
+    # no store through the parent's context
+    for n in ast.walk(mod.tree):
+        if isinstance(n, (ast.Attribute, ast.Subscript)) and isinstance(n.ctx, (ast.Store, ast.Del)):
+            r = n
+            while isinstance(r, (ast.Attribute, ast.Subscript)):
+                r = r.value
+            if isinstance(r, ast.Name) and r.id == '_super_ctx':
+                bad('WIRE-parent-readonly', f'{mod.label}: stores through the parent context ({ast.unparse(n)})')
+
+
+def free_names(mod, bad, stats):
+    """every global name the emitted module loads is defined by it, by the runtime, or is a builtin"""
+    import symtable
+    ctx = mod.uses_context
+    defined = set(module_level_names(mod.tree))
+    if mod.sub:
+        # the prologue imports the runtime from the parent
+        for n in mod.tree.body:
+            if isinstance(n, ast.ImportFrom):
+                for a in n.names:
+                    defined.add(a.asname or a.name)
+    st = symtable.symtable(mod.src, '<emitted>', 'exec')
+
+    def walk(t):
+        yield t
+        for c in t.get_children():
+            yield from walk(c)
+    missing = {}
+    for t in walk(st):
+        for s in t.get_symbols():
+            name = s.get_name()
+            if t.get_type() == 'module':
+                is_glob = s.is_referenced() and not s.is_assigned() and not s.is_imported() \
+                    and not s.is_namespace() and not s.is_parameter()
+            else:
+                is_glob = s.is_global() and s.is_referenced()
+            if is_glob and name not in defined and not hasattr(builtins, name):
+                missing.setdefault(name, t.get_name())
+    stats['globals'] += 1
+    for name, scope in missing.items():
+        bad('FREE-name', f'{mod.label}: {scope} reads the global name {name}, which neither the module, nor '
+                         f'the runtime it carries/imports, nor builtins define')
+
+
+# --------------------------------------------------------------------------- ignore distribution (C04)
+def walk_objs(v, seen=None):
+    """all interpreted objects reachable through attributes, lists and tuples"""
+    if seen is None:
+        seen = set()
+    if isinstance(v, M.Obj):
+        if id(v) in seen:
+            return
+        seen.add(id(v))
+        yield v
+        for x in v.d.values():
+            yield from walk_objs(x, seen)
+    elif isinstance(v, (list, tuple)):
+        for x in v:
+            yield from walk_objs(x, seen)
+
+
+LITERALS = ('Str', 'Regex', 'Byte')
+
+
+def ignore_distribution(R, bad, stats):
+    """After generate_source_code has run on a grammar with ignore declarations every literal
+    object (wherever it sits: ignored rules, template arguments incl. keyword arguments, class
+    members) carries skip_ignored=True; without ignore declarations none does."""
+    for label, build, kw in route_grammars(R):
+        for name in (None, 'gmod'):
+            body = build()
+            e = R.emit(label, body, name=name)
+            if not isinstance(e, modroute.Emitted):
+                continue
+            has_ignore = any(isinstance(r, M.Obj) and r.d.get('is_ignored') for r in body)
+            lits = [o for o in walk_objs(body) if o.cls.name in LITERALS]
+            stats['literals'] += len(lits)
+            for o in lits:
+                flag = o.d.get('skip_ignored')
+                empty = o.cls.name == 'Str' and not o.d.get('value')
+                if has_ignore and not flag:
+                    bad('IGN-every-literal', f'{label}: literal {o} keeps skip_ignored={flag} although the grammar '
+                                             f'declares ignore patterns: ignorable text after it is not skipped')
+                if not has_ignore and flag:
+                    bad('IGN-only-with-ignore', f'{label}: literal {o} has skip_ignored set in a grammar without '
+                                                f'ignore declarations')
+            for o in walk_objs(body):
+                if o.cls.name not in LITERALS and 'skip_ignored' in o.d and o.d['skip_ignored']:
+                    bad('IGN-only-literals', f'{label}: {o.cls.name} object carries skip_ignored')
